@@ -390,8 +390,8 @@ def check_roll(case: dict, hist=None) -> list[dict]:
             bad = (np.abs(f2 - rolled) > 8 * EPS * max(abs(vmin), abs(vmax), 1.0)) & ~knife
     if np.any(bad):
         idx = tuple(int(i) for i in np.argwhere(bad)[0])
-        out.append({"what": f"translating by {k} cell(s) along periodic axis {ax} does not roll the field",
-                    "check": "roll", "input": case, "cell": idx, "translated": float(f2[idx]),
+        out.append({"what": "translating by whole cells along a periodic axis does not roll the field",
+                    "check": "roll", "input": case, "cells_translated": k, "axis": ax, "cell": idx, "translated": float(f2[idx]),
                     "rolled": float(rolled[idx])})
     case["_nontrivial"] = bool(f1.min() != f1.max())
     return out
@@ -1240,7 +1240,27 @@ def check(ctx: vlib.Ctx) -> int:
             ctx.violations.append({**v, "broken": ctx.broken[:3]})
     ctx.extra["oracle_failures_total"] = len(fails)
     ctx.extra["failure_kinds"] = {f"{k[0]}: {k[1]}": n for k, n in seen.items()}
+    # known finding F19 (periodic cylindrical grids are never wrapped in z by py-pde 0.58.0): replay the
+    # recorded input; print KNOWN-FINDING while it still fails and the entry is listed
+    if any(e.get("id") == "F19" and e.get("kind") == "finding" for e in vlib.load_known()):
+        msg = f19_replay()
+        if msg:
+            ctx.known_printed.append(msg)
     return vlib.finish(ctx, "", TRUSTED, ASSUME, RULE)
+
+
+def f19_replay():
+    """SphericalDroplet([0,0,0.5],1.25) on CylindricalSymGrid(2,(0,4),(2,4),periodic_z=True): the row r=0.5
+    should be [1,1,0,1] under the z-periodic metric; returns a description while it is not."""
+    from pde import CylindricalSymGrid
+    from droplets import SphericalDroplet
+    g = CylindricalSymGrid(2, (0, 4), (2, 4), periodic_z=True)
+    row = SphericalDroplet([0, 0, 0.5], 1.25).get_phase_field(g).data[0].tolist()
+    if row != [1.0, 1.0, 0.0, 1.0]:
+        return ("rendering on a periodic CylindricalSymGrid does not use the z-periodic metric (py-pde 0.58.0 "
+                f"difference_vector never wraps z): SphericalDroplet([0,0,0.5],1.25) on CylindricalSymGrid(2,(0,4),(2,4),"
+                f"periodic_z=True) renders row r=0.5 as {row}, periodic metric gives [1,1,0,1]; roll property fails likewise")
+    return None
 
 
 def replay(path: str) -> int:
